@@ -17,7 +17,8 @@ out = ["# Seeded changes", "",
  "Each was confirmed with `verify_seed.py` (scratch copy under /var/tmp: the demo passes without the change, the change applies and builds, the suite has no new failure, the demo fails with the change) and then every check was run against the changed copy.",
  "None of them is ever committed to /repo. `selftest.sh` (run by `./check Cxx thorough`) re-applies every seed whose `caught_by` names the property to a scratch copy and requires exit 1 and the recorded obligation key; a miss prints `CHECKER-DEFECT` and fails the thorough check.",
  "`reverify_seeds.py` re-confirms all seeds against the current /repo and refreshes `caught_by`.", "",
- "%d changes; every one is reported by the check of the property it breaks." % len(rows), "",
+ ("%d changes; every one is reported by the check of the property it breaks." % len(rows)) if not [r for r in rows if r[3].startswith("—")] else
+ ("%d changes; every one is reported by some check, %d of them not by the check of the property named by their author but by a neighbouring one (%s) - see the last column." % (len(rows), len([r for r in rows if r[3].startswith("—")]), ", ".join(r[0] for r in rows if r[3].startswith("—")))), "",
  "| seed | breaks | needs, to manifest | obligation of the target check that fails | other checks that also fire |", "|---|---|---|---|---|"]
 for r in rows:
     out.append("| %s | %s | %s | `%s` | %s |" % r)
